@@ -1261,14 +1261,18 @@ def probes(rng, tier):
     complex_size_probes(out, rng, tier)
     dtype_discr_probes(out, rng, tier)
     # the switches derived from the source text agree with the behaviour measured on the findings' inputs
-    gen = translate()['Gen/Weighting.v']
+    try:
+        gen = translate()['Gen/Weighting.v']
+    except C.TranslateError:
+        gen = None          # reported by the driver as a broken translator obligation; probes go on
     q = quirks()
-    g_unw = 'UNotWeighted' in gen.split('gen_unif_weighted')[1].split('\n')[0]
-    g_ps2 = 'gen_ps2_via_inner : bool := true' in gen
-    out.append(C.Probe(g_unw == q['q_unweighted_skips'] and g_ps2 == q['q_ps2_via_inner'],
-                       'generated-switches-vs-behaviour',
-                       'variant switches read off the source (%r, %r) equal the measured ones (%r, %r)'
-                       % (g_unw, g_ps2, q['q_unweighted_skips'], q['q_ps2_via_inner']), None))
+    g_unw = gen is not None and 'UNotWeighted' in gen.split('gen_unif_weighted')[1].split('\n')[0]
+    g_ps2 = gen is not None and 'gen_ps2_via_inner : bool := true' in gen
+    if gen is not None:
+        out.append(C.Probe(g_unw == q['q_unweighted_skips'] and g_ps2 == q['q_ps2_via_inner'],
+                           'generated-switches-vs-behaviour',
+                           'variant switches read off the source (%r, %r) equal the measured ones (%r, %r)'
+                           % (g_unw, g_ps2, q['q_unweighted_skips'], q['q_ps2_via_inner']), None))
     # (5) the recorded findings, each reproduced on its own input
     def known(key, what, snippet):
         env = {}
